@@ -449,6 +449,8 @@ public:
    */
   void createNode(Nref nodeObject)
   {
+    if (!nodeObject)
+      throw Exception("AssociationGraphImplObserver::createNode : null node object");
     if (hasNode(nodeObject))
       throw Exception("AssociationGraphImplObserver::createNode : node already exists: " + nodeToString(nodeObject));
 
@@ -555,6 +557,8 @@ public:
    */
   void associateNode(Nref nodeObject, NodeGraphid graphNode)
   {
+    if (!nodeObject)
+      throw Exception("AssociationGraphImplObserver::associateNode : null node object");
     if (hasNode(nodeObject))
       throw Exception("AssociationGraphImplObserver::associateNode : node already exists: " + nodeToString(nodeObject));
     // the graph node must exist and be free: one object per node
@@ -579,6 +583,8 @@ public:
    */
   void associateEdge(Eref edgeObject, EdgeGraphid graphEdge)
   {
+    if (!edgeObject)
+      throw Exception("AssociationGraphImplObserver::associateEdge : null edge object");
     if (hasEdge(edgeObject))
       throw Exception("AssociationGraphImplObserver::associateEdge : edge already exists: " + edgeToString(edgeObject));
     // the graph edge must exist and be free: one object per edge
@@ -807,6 +813,8 @@ public:
    */
   NodeIndex setNodeIndex(const Nref nodeObject, NodeIndex index)
   {
+    if (!nodeObject)
+      throw Exception("AssociationGraphImplObserver::setNodeIndex : null node object");
     // nodes vector must be the right size. Eg: to store a node with
     // the index 3, the vector must be of size 4: {0,1,2,3} (size = 4)
     if (hasNode(index))
@@ -831,6 +839,8 @@ public:
    */
   EdgeIndex setEdgeIndex(const Eref edgeObject, EdgeIndex index)
   {
+    if (!edgeObject)
+      throw Exception("AssociationGraphImplObserver::setEdgeIndex : null edge object");
     // nodes vector must be the right size. Eg: to store an edge with
     // the index 3, the vector must be of size 4: {0,1,2,3} (size = 4)
     if (hasEdge(index))
@@ -854,6 +864,8 @@ public:
    */
   NodeIndex addNodeIndex(const Nref nodeObject)
   {
+    if (!nodeObject)
+      throw Exception("AssociationGraphImplObserver::addNodeIndex : null node object");
     // nodes vector must be the right size. Eg: to store a node with
     // the index 3, the vector must be of size 4: {0,1,2,3} (size = 4)
     if (NToIndex_.find(nodeObject) != NToIndex_.end())
@@ -885,6 +897,8 @@ public:
    */
   EdgeIndex addEdgeIndex(const Eref edgeObject)
   {
+    if (!edgeObject)
+      throw Exception("AssociationGraphImplObserver::addEdgeIndex : null edge object");
     // nodes vector must be the right size. Eg: to store an edge with
     // the index 3, the vector must be of size 4: {0,1,2,3} (size = 4)
     if (EToIndex_.find(edgeObject) != EToIndex_.end())
